@@ -82,6 +82,43 @@ var noPanicAllow = map[string]string{
 	"(*sync.RWMutex).RUnlock":              "unlock after lock (C18)",
 }
 
+// noPanicPackages: standard-library packages whose functions and methods do not
+// panic for any argument values of their static types (formatting, string and
+// number handling, time arithmetic, logging), except the few listed in
+// panicProne.  Calls into them are accepted without individual review; every
+// other package outside the module still needs an entry in noPanicAllow.
+var noPanicPackages = map[string]bool{
+	"fmt": true, "errors": true, "strings": true, "strconv": true, "unicode": true, "unicode/utf8": true,
+	"math": true, "math/bits": true, "time": true, "log/slog": true, "sort": true, "encoding/hex": true,
+	"path": true, "path/filepath": true,
+}
+
+var panicProne = map[string]string{
+	"strings.Repeat":            "negative count / overflow",
+	"time.Date":                 "nil *Location",
+	"(time.Time).In":            "nil *Location",
+	"time.NewTicker":            "non-positive interval",
+	"time.Tick":                 "leaks; negative interval returns nil",
+	"(*time.Ticker).Reset":      "non-positive interval",
+	"(*strings.Builder).Grow":   "negative count",
+	"(*strings.Reader).UnreadByte": "misuse returns error, listed for review",
+	"strconv.FormatInt":         "base out of range",
+	"strconv.FormatUint":        "base out of range",
+	"strconv.AppendInt":         "base out of range",
+	"sort.Slice":                "non-slice argument",
+	"sort.SliceStable":          "non-slice argument",
+}
+
+func pkgNoPanic(callee *ssa.Function, full string) bool {
+	if callee == nil || callee.Pkg == nil || callee.Pkg.Pkg == nil {
+		return false
+	}
+	if _, bad := panicProne[full]; bad {
+		return false
+	}
+	return noPanicPackages[callee.Pkg.Pkg.Path()]
+}
+
 type boundsRun struct {
 	c      *Ctx
 	P      *Prog
@@ -1057,6 +1094,11 @@ func (b *boundsRun) checkCall(fn *ssa.Function, ci ssa.CallInstruction, mk func(
 		b.external[full]++
 		b.stats["external:allowed"]++
 		_ = why
+		return
+	}
+	if pkgNoPanic(callee, full) {
+		b.external[full]++
+		b.stats["external:allowed-by-package"]++
 		return
 	}
 	if full == "log.Fatal" || full == "log.Fatalf" || full == "os.Exit" || strings.HasPrefix(full, "log.Panic") {
